@@ -255,6 +255,31 @@ func loadKnown() []KnownFinding {
 	return k.Findings
 }
 
+// envPass: a worker pass whose process starts in another environment (what the package's init sees).
+type envPass struct {
+	name string
+	env  []string                    // ${SCRATCH} stands for the scratch directory of the run
+	prep func(scratch string) error // creates what the environment refers to
+}
+
+func (s *checkSpec) passEnv(name, scratch string) []string {
+	for _, e := range s.envPasses {
+		if e.name == name {
+			if e.prep != nil {
+				if err := e.prep(scratch); err != nil {
+					fatal("environment pass %s: %v", name, err)
+				}
+			}
+			var env []string
+			for _, kv := range e.env {
+				env = append(env, strings.ReplaceAll(kv, "${SCRATCH}", scratch))
+			}
+			return env
+		}
+	}
+	return nil
+}
+
 type checkSpec struct {
 	id            string
 	level         string
@@ -263,6 +288,7 @@ type checkSpec struct {
 	gomax1        bool // run workers with GOMAXPROCS=1
 	testMode      bool // additionally run a test-mode worker pass (thorough)
 	testModeQuick bool // ... in the quick tier too
+	envPasses     []envPass // additional production-mode passes of build 0 in a different process environment
 	build         func(tier string) []buildOpts
 	deadlineQ     int
 	deadlineT     int
@@ -547,6 +573,9 @@ func doCheck(id, tier string, keep bool) int {
 	if spec.testMode && (tier == "thorough" || spec.testModeQuick) {
 		passes = append(passes, pass{bins[0], true, "testmode"})
 	}
+	for _, e := range spec.envPasses {
+		passes = append(passes, pass{bins[0], false, e.name})
+	}
 	passByName := map[string]pass{}
 	for _, p := range passes {
 		passByName[p.pass] = p
@@ -572,6 +601,7 @@ func doCheck(id, tier string, keep bool) int {
 				}
 				env = append(env, "VERIF_PASS="+p.pass, "VERIF_BIN="+p.bin)
 				env = append(env, auxEnv...)
+				env = append(env, spec.passEnv(p.pass, scratch)...)
 				r, err := runWorker(scratch, myidx, workerRun{bin: p.bin, testMode: p.testMode, env: env,
 					args: []string{"-check", id, "-tier", tier, "-shard", strconv.Itoa(s), "-nshards", strconv.Itoa(nshards),
 						"-deadline", strconv.Itoa(deadline), "-seed", strconv.FormatInt(seed, 10)},
@@ -719,6 +749,7 @@ func doCheck(id, tier string, keep bool) int {
 						env = append(env, "GOMAXPROCS=1")
 					}
 					env = append(env, auxEnv...)
+					env = append(env, spec.passEnv(p.pass, scratch)...)
 					r, err := runWorker(scratch, idx, workerRun{bin: p.bin, testMode: p.testMode, env: env,
 						args: []string{"-check", id, "-tier", tier, "-shard", strconv.Itoa(v.Shard), "-nshards", strconv.Itoa(nshards),
 							"-deadline", strconv.Itoa(deadline), "-seed", strconv.FormatInt(seed, 10), "-until-sig", v.Sig},
@@ -954,6 +985,7 @@ func doReplay(file string) int {
 		if spec.gomax1 {
 			env = append(env, "GOMAXPROCS=1")
 		}
+		env = append(env, spec.passEnv(h.Pass, scratch)...)
 		r, err := runWorker(scratch, 1, workerRun{bin: bin, testMode: h.Pass == "testmode", env: env,
 			args:    []string{"-check", wrap.Property, "-tier", h.Tier, "-shard", strconv.Itoa(h.Shard), "-nshards", strconv.Itoa(h.NShards), "-deadline", "3000", "-until-sig", h.UntilSig},
 			timeout: 3200 * time.Second})
